@@ -67,11 +67,23 @@ const NAMES: &[&str] = &[
 const BINOPS: &[&str] = &["+", "-", "*", "/", "%", "&", "|", "^", "<<", ">>", "==", "!=", "<", "<=", ">", ">=", "&&", "||", ".."];
 
 fn adversarial(bytes: &[u8], triggers: bool) -> (String, usize) {
+    adversarial_with(bytes, triggers, false)
+}
+
+/// The same programs for the build-configuration matrix (C10): maps that keep entries between
+/// operations are left out of the pool, because an object used as a key hashes by its address and
+/// the printed order of such a map legitimately differs between two processes.
+pub fn matrix_program(bytes: &[u8]) -> (String, Vec<(String, String)>) {
+    let (src, _) = adversarial_with(bytes, false, true);
+    (src, vec![("m0".to_string(), MODULE.to_string())])
+}
+
+fn adversarial_with(bytes: &[u8], triggers: bool, stable: bool) -> (String, usize) {
     let mut rd = Rd::new(bytes, 100_000);
     let mut s = String::from(PREAMBLE);
 
     let n = 8 + rd.below(40);
-    let pool: Vec<&str> = POOL.to_vec();
+    let pool: Vec<&str> = if stable { POOL.iter().copied().filter(|p| *p != "sharedmap" && *p != "selfmap").collect() } else { POOL.to_vec() };
     let mut ops = 0;
     for i in 0..n {
         if rd.exhausted() {
@@ -109,7 +121,7 @@ fn adversarial(bytes: &[u8], triggers: bool) -> (String, usize) {
                 0 => format!("print({{{}: 1}});", v(&mut rd)),
                 1 => format!("print({{}}.insert({}, {}));", v(&mut rd), v(&mut rd)),
                 2 => format!("print({{1: 2}}.get({}));", v(&mut rd)),
-                3 => {
+                3 if !stable => {
                     // a shared map: keys that failed once are tried again later
                     let k = v(&mut rd);
                     match rd.below(4) {
